@@ -12,7 +12,7 @@ def gen_variant(rng, vid, uid, depth=1, vtype=None):
     paths = {}
     for f in rng.sample(PATH_FIELDS, rng.randint(0, len(PATH_FIELDS))):
         paths[f] = rng.choice(["Packages", ".", "%s/os" % vid, "repo/%s" % rstr(rng, LOWER, 2, 5), "certs/%s.pem" % vid,
-                               "addons/%s/" % vid, "%s/repodata" % vid, "./", "repodata"])
+                               "addons/%s/" % vid, "%s/repodata" % vid, "./", "repodata", ""])
     children = {}
     if depth < 3:
         for cid in rng.sample(["optional", "HighAvailability", "ResilientStorage", "SAP"], rng.choice([0, 0, 1, 2])):
